@@ -449,15 +449,22 @@ fn fullbox(typ: &[u8; 4], version: u8, flags: u32, payload: &[u8]) -> Vec<u8> {
 /// stts, stsc, stsz, stco))))), mdat.  Returns (bytes, offsets of each mdat box, payload lens).
 /// `free_len` > 0 inserts a `free` box of that total size after ftyp (placeholder workflows).
 pub fn mp4(r: &mut Rng, free_len: usize) -> (Vec<u8>, Vec<(usize, usize, usize)>) {
+    mp4_sized(r, free_len, 0, None)
+}
+
+/// Like `mp4`, with `extra_payload` more mdat payload bytes and optionally a forced header form.
+pub fn mp4_sized(r: &mut Rng, free_len: usize, extra_payload: usize, force_large: Option<bool>) -> (Vec<u8>, Vec<(usize, usize, usize)>) {
     let mut v = bmff_box(b"ftyp", b"isom\0\0\x02\0isomiso2mp41");
     if free_len >= 8 {
         v.extend(bmff_box(b"free", &vec![0u8; free_len - 8]));
     }
     let n_samples = r.usize(1, 3);
-    let sizes: Vec<usize> = (0..n_samples).map(|_| r.usize(4, 40)).collect();
+    let mut sizes: Vec<usize> = (0..n_samples).map(|_| r.usize(4, 40)).collect();
+    sizes[0] += extra_payload;
     let payload_len: usize = sizes.iter().sum();
     let mdat_first = r.chance(1, 3);
-    let large = r.chance(1, 4);
+    let large_draw = r.chance(1, 4);
+    let large = force_large.unwrap_or(large_draw);
 
     let build_moov = |chunk_off: u32| -> Vec<u8> {
         let mut mvhd = vec![0u8; 96];
